@@ -56,7 +56,7 @@ prop('C06', rules=['regions', 'rows', 'C01.mask', 'wiring'], take=['C06.regions'
              'nt-site:back': 1, 'nt-site:back11': 1, 'nt-site:backmp11': 1, 'nt-completion:back': 1, 'nt-completion:back11': 1, **FLOOR_EXT},
      explanation='Region dispatch: every instantiation of the region recursion In<N>::process invokes the cell entries[m_states[N]+1] with (fsm, N, m_states[N], evt) and continues with N+1, starting at 0 and ending at nr_regions with the machine-internal table (backmp11: the for loop 0..nr_regions-1); every write of the accumulated result ORs the old value; do_process_event starts at HANDLED_FALSE and returns the accumulator; no_transition has one call site, on this, with the reported region\'s active id, reachable only through "accumulator is zero" and the containment / direct-call test and unreachable for completion events; row executors return the handled bit / guard-reject / HANDLED_FALSE per path (C06.row-result).')
 
-prop('C07', rules=['rows', 'cascade', 'kind', 'wiring', 'C01.mask', 'plans', 'plans_mp11'], take=['C07.forward-exec', 'C02.cascade', 'C02.kind', 'C07.wiring', 'C01.mask', 'C01.plan'],
+prop('C07', rules=['rows', 'cascade', 'kind', 'wiring', 'C01.mask', 'plans', 'plans_mp11'], take=['C07.forward-exec', 'C02.cascade', 'C02.kind', 'C07.wiring', 'C01.mask', 'C01.plan', 'C18.frow-event'],
      floors={'forward-exec:back:frow': 1, 'forward-exec:back11:frow': 1, 'forward-exec:backmp11:forward_transition': 1, 'wiring:back': 1, 'wiring:back11': 1, **FLOOR_CASC},
      explanation='Hierarchy: forwarding executors dispatch to their own submachine object exactly once and run no behaviour (C07.forward-exec); a consumed inner event stops outer candidates (C01.mask: bit tests only); cascaded exit / entry order and composite dispatch (C02.cascade, C02.kind); substates are wired to their container last in every constructor so that containment marks and exit-point forwarders are not overwritten (C07.wiring).')
 prop('C03', rules=['cascade', 'bounds', 'visitset'], take=['C03.start-stop', 'C03.region-index', 'C03.bounds', 'C03.visit-set'],
@@ -88,7 +88,7 @@ prop('C16', rules=['copyser'], take=['C16.fields'],
      floors={'serialize:back': 1, 'serialize:back11': 1, 'serialize_state:back': 1, 'serialize_state:back11': 1, 'serialize:history:NoHistoryImpl': 1, 'serialize:history:ShallowHistoryImpl': 1},
      explanation='Field coverage of serialization: serialize() archives the front-end base object and every data member of the machine except the documented unserialisable ones (queues, visitors, container pointer), each history policy archives all its members, serialize_state archives exactly the composite and do_serialize states. One serialize() serves both directions (Boost.Serialization operator&). Round-trip behaviour is not decided.')
 
-prop('C17', rules=['flags', 'visitset'], take=['C17.table', 'C17.pure', 'C17.visitor', 'C03.visit-set'],
+prop('C17', rules=['flags', 'visitset', 'rows'], take=['C17.table', 'C17.pure', 'C17.visitor', 'C03.visit-set', 'C19.slots'],
      floors={'init-flags:back': 1, 'init-flags:back11': 1, 'flag-fold:back': 1, 'flag-fold:back11': 1, 'flag-query:backmp11': 1, 'flag-visitor:flag_or': 1, 'flag-visitor-call:flag_or': 1,
              'visit-set-with-submachines:1-pred': 1},
      explanation='Flag tables: for every (state, flag) instantiation of the back/back11 table initialiser the installed handler equals the oracle recomputed from the state\'s declared flag_list / internal_flag_list (true / forward into a composite unless the flag is non-forwarding / false); is_flag_active is const, consults region 0 and folds regions 1..N-1 over the active ids only and writes no member; backmp11: the query is const and traverses the active configuration recursively, the OR / AND visitors start at false / true and set true / false, and the compile-time pruning sets are closed under nesting (C03.visit-set).')
@@ -100,7 +100,7 @@ prop('C14', rules=['rows', 'rowtags'], take=['C14.rows-exec', 'C14.rows', 'C14.p
              'front-row:functor_row.hpp:Row': 1, 'front-row:functor_row.hpp:Internal': 1, 'front-row:internal_row.hpp:a_internal': 1, 'front-row:internal_row.hpp:g_internal': 1,
              'front-row:internal_row.hpp:internal': 1, 'front-row:internal_row.hpp:_internal': 1, 'tl-puml-asserts': 20, **FLOOR_EXT, **FLOOR_INT},
      explanation='Front-end / back-end agreement: every front-end row class carries the tag matching the calls it provides (guard_call / action_call, Guard / Action typedefs, internal iff no target) (C14.rows); every executor instantiation calls the guard / action exactly when the row\'s tag says so and has a guard-reject path when the row has a guard (C14.rows-exec); PlantUML: a generated matrix of spellings of one transition line (1-4 dashes, padding, actions/guard in both orders, 0-3 actions, guard expressions with ! && || and one parenthesis level) must yield the row type of the canonical spelling, plus fixed expectations for parts and operator precedence, compiled as static_asserts with clang -fsyntax-only (C14.puml). This decides those strings, not the whole grammar.')
-prop('C18', rules=['casts', 'plans', 'plans_mp11', 'queues'], take=['C18.cast', 'C01.plan', 'C04.target'],
+prop('C18', rules=['casts', 'plans', 'plans_mp11', 'queues'], take=['C18.cast', 'C01.plan', 'C04.target', 'C18.frow-event'],
      floors={'cell-cast:back': 1, 'cell-cast:back11': 1, 'plan-table:back': 1, 'plan-table:back11': 1, 'stored-callable:back:MSGQ': 1, 'stored-callable:back11:MSGQ': 1},
      explanation='Event matching: for every instantiated back/back11 runtime-speed dispatch table the candidates installed per state equal the rows allowed by "same type, public base, or Kleene" in table priority order, recomputed from the front-end declarations (C01.plan); no executor is called through a cell signature with a different event class unless the trigger is on the primary-base chain of the event (C18.cast); queued / deferred events are stored by value (C04.target). Payload through user conversions is not decided.')
 
@@ -109,7 +109,7 @@ prop('C20', rules=['poly', 'queues', 'copymp11'], take=['C20.poly', 'C20.erasure
              'pool-layout:deferred_event': 1, 'erasure:exit-forwarder': 1, 'erase-site:do_process_event_pool': 1, 'tl-poly-asserts': 15},
      explanation='Stored events: basic_polymorphic_base assignments test self-assignment, destroy the held object, take the control block and copy / move, in this order; constructors take the control block then copy / move; the destructor destroys once; the value constructors store into buffer or heap in agreement with the control block they select; control_block::move nulls a stolen heap pointer, destroy is null-tolerant; event_occurrence is the first base of pooled classes; the exit-point forwarder reads the type it is handed; pool erase only after marked_for_deletion; queue elements store the event by value; inline / heap selection over a size x alignment x nothrow-move matrix and the control-block capacity are asserted at compile time (C20.cb). Absence of use-after-free over operation histories is not decided.')
 
-SIB_TAKE = ['C13.siblings', 'C01.plan', 'C01.mask', 'C02.order', 'C02.internal', 'C19.slots', 'C06.row-result', 'C06.or', 'C06.nt', 'C06.regions', 'C09.exit-active', 'C04.flag', 'C04.flag-test', 'C04.flag-drain', 'C04.flag-exit', 'C04.queue-ops', 'C11.gate', 'C12.catch', 'C02.cascade', 'C10.first', 'C05.cell', 'C03.visit-set']
+SIB_TAKE = ['C13.siblings', 'C01.plan', 'C18.frow-event', 'C01.mask', 'C02.order', 'C02.internal', 'C19.slots', 'C06.row-result', 'C06.or', 'C06.nt', 'C06.regions', 'C09.exit-active', 'C04.flag', 'C04.flag-test', 'C04.flag-drain', 'C04.flag-exit', 'C04.queue-ops', 'C11.gate', 'C12.catch', 'C02.cascade', 'C10.first', 'C05.cell', 'C03.visit-set']
 prop('C13', rules=['siblings', 'siblings_cmp', 'plans', 'plans_mp11', 'C01.mask', 'rows', 'regions', 'flag', 'queues', 'gate', 'catch', 'cascade', 'drain', 'defer_plan', 'visitset'], take=SIB_TAKE,
      floors={'sibling-patterns': 60, 'plan-table:back': 1, 'plan-table:back11': 1, 'plan-table:backmp11': 1, **FLOOR_EXT},
      explanation='Equivalence of configurations, decided structurally: (1) sibling agreement - every function of back and back11 (state_machine.hpp, dispatch_table.hpp) instantiated for the same front-end machine and the same arguments in both back-ends has the same set of abstract path signatures (resolved library callees, enumerator / flag arguments, member writes, returns); (2) the dispatch plans of back, back11 and backmp11 (flat_fold and function_pointer_array share them) each equal the one oracle computed from the front-end declarations, hence each other; (3) every shape rule that has instances in several back-ends (execution order, policy slots, result codes, run-to-completion flag, queue discipline, blocking gate, exception handling, cascades) is evaluated on all of them. Trace equality over event sequences is not decided.')
